@@ -19,8 +19,8 @@ CLAIMED = {
             "Six theorems: every builder is a definitional block whose outputs carry the binary sum (documented saturation of the top bit) for all widths.",
             "Coq kernel; extraction; tie by literal clause lists of every builder", "DESIGN.md §4 C12"),
     "C13": ("Coq proof (rank/unrank inverse pairs, refinement of the explicit-stack/memo machine to the clean recursion) + exhaustive and random correspondence + brute-force search",
-            "21 theorems: each unranking function is a bijection from [0,N) onto its arrangements with N the counting function, for all parameters; stack/memo implementation refines the clean recursion relative to fuel.",
-            "Coq kernel; extraction; fuel sufficiency of the stack machine observed, not proved", "DESIGN.md §4 C13"),
+            "27 theorems: each unranking function is a bijection from [0,N) onto its arrangements with N the counting function, for all parameters; the explicit-stack/memo implementation, the memoised counter, both dispatchers and any session on a shared memo table refine the clean recursion AND are total (C13_*_total: the model's fuel always suffices, by an amortised potential over the memo table).",
+            "Coq kernel; extraction; the model's fuel replaces the real `while ks:` loop (same step bound)", "DESIGN.md §4 C13"),
     "C20": ("Coq proof (transposition lemmas by list induction) + correspondence on synthesized and arbitrary experiments + cell-by-cell search",
             "Conversions reproduce every cell for exactly the user-declared factor names; hidden factors never exposed.",
             "Coq kernel; extraction; CSV/print layout parsed back by the harness", "DESIGN.md §4 C20"),
